@@ -1,9 +1,9 @@
 \* Walk generator (thorough): every walk of <= 3 steps per design class ending in a Compile with >= 2 compiles;
-\* 6 formatting operations, all 8 option sets.
+\* 6 formatting operations, all 7 option sets.
 SPECIFICATION Spec
 CONSTANTS
   Classes = {"g", "gb", "gi", "u", "uk"}
-  OptSets = {"default", "flatten", "keepdir", "noprod", "decompose", "tristate", "dtc", "debg"}
+  OptSets = {"default", "flatten", "keepdir", "noprod", "decompose", "tristate", "dtc"}
   FormatOps = {"indent", "flow", "keyorder", "quote", "num", "eol"}
   MaxLen = 3
   MinCompiles = 2
